@@ -14,6 +14,9 @@ var Replayers = map[string]func(c *core.Ctx, rp *core.Replay) (bool, string){}
 // Runners maps a property to its check.
 var Runners = map[string]func(c *core.Ctx) int{}
 
+// BeforeReplay lets an engine look at a replay file before its pipeline is built (optional).
+var BeforeReplay = map[string]func(rp *core.Replay){}
+
 // Preparers build what a property's replayer needs (instrumented binaries etc.).
 var Preparers = map[string]func(c *core.Ctx){}
 
